@@ -372,6 +372,17 @@ func ZZ_C10_AddBeforeDrain() {
 	after := zzContents(q)
 	zzrt.Assert(len(after) <= max, "length-never-exceeds-maximum")
 	zzrt.Assert(len(after)+len(nt.dropped) == len(before)+1, "conservation-length")
+	// an unacknowledged in-flight entry is never sacrificed while it is alive
+	droppedInflight := 0
+	for k, d := range nt.dropped {
+		for _, x := range ents[:i] {
+			if x.e == d {
+				droppedInflight++
+				zzrt.Assert(zzrt.ConcreteBool(zzExpired(now, x)) && nt.dropErrs[k] == queue.ErrDropExpiredInflight, "live-inflight-entry-never-dropped")
+			}
+		}
+	}
+	zzrt.Assert(nt.inflight == -droppedInflight, "inflight-counter-follows-drop")
 	// the in-flight entries are then still replayed, in order
 	var got []*queue.Elem
 	for round := 0; round < n+2; round++ {
